@@ -147,7 +147,7 @@ func (d *rdesc) build() (fox.ClientIPResolver, error) {
 				return nil, errRangeResolver
 			}))
 		}
-		nets, err := clientip.AddressesAndRangesToIPNets(d.ranges...)
+		nets, err := buildNets(d.ranges)
 		if err != nil {
 			return nil, err
 		}
@@ -176,9 +176,32 @@ func coqOpts(opts []optFlag) string {
 
 func bigN(b *big.Int) string { return "(" + b.String() + ")%N" }
 
-// the net.IPNet values the range resolver returns, as model cidrs
+// the net.IPNet values a TrustedIPRange returns for the arguments: AddressesAndRangesToIPNets,
+// except "!a.b.c.d/n": a legal but non-canonical net.IPNet whose IP keeps its host bits
+// (what net.InterfaceAddrs or IPNet{IP: ip, Mask: n.Mask} of ParseCIDR's results give)
+func buildNets(args []string) ([]net.IPNet, error) {
+	var out []net.IPNet
+	for _, a := range args {
+		if strings.HasPrefix(a, "!") {
+			ip, n, err := net.ParseCIDR(a[1:])
+			if err != nil {
+				return nil, err
+			}
+			out = append(out, net.IPNet{IP: ip, Mask: n.Mask})
+			continue
+		}
+		ns, err := clientip.AddressesAndRangesToIPNets(a)
+		if err != nil {
+			return nil, err
+		}
+		out = append(out, ns...)
+	}
+	return out, nil
+}
+
+// ... and as model cidrs
 func coqNets(args []string) (string, error) {
-	nets, err := clientip.AddressesAndRangesToIPNets(args...)
+	nets, err := buildNets(args)
 	if err != nil {
 		return "", err
 	}
@@ -537,7 +560,7 @@ var (
 	unspec      = []string{"0.0.0.0", "::", "::ffff:0.0.0.0", "0:0:0:0:0:0:0:0", "::0", "::ffff:0:0"}
 	invalid     = []string{"", "unknown", "_hidden", "1.2.3", "1.2.3.4.5", "256.1.1.1", "01.2.3.4", "1.2.3.04", "1..2.3", ".1.2.3", "1.2.3.", ":::", "1:2:3:4:5:6:7:8:9",
 		"12345::", "g::1", "1::2::3", "1:2:3:4:5:6:7::", "1:2:3:4:5:6:7:8::", "::1:2:3:4:5:6:7:8", "::1.2.3.4", "1:2:3:4:5:6:1.2.3.4", "1:2:3:4:5:6:7:1.2.3.4", "1:2:3:4:5:1.2.3.4",
-		"::ffff:1.2.3", "::ffff:1.2.3.4.5", "1:", ":1", "::1:", "fe80::1%", "%eth0", "fe80::1%a%b", "1.2.3.4%eth0", "%", "[", "]", "[]", "[]:", "[::1", "::1]", "[[::1]]", "[::1]]:80",
+		"::ffff:1.2.3", "::ffff:1.2.3.4.5", "1:", ":1", "::1:", "fe80::1%", "%eth0", "fe80::1%a%b", "1.2.3.4%eth0", "%", "[", "]", "[]", "[]:", "\"", "\"\"", "\"[", "]\"", "[::1", "::1]", "[[::1]]", "[::1]]:80",
 		"[::1]:80:90", "[::1]x:80", "1.2.3.4:80:90", "host.example.com", "localhost:80", "0x7f.1", "1.2.3.4/24", "10.0.0.1 10.0.0.2", "\xff\xfe", "1.1.1.\xc2\xa01", "FFFF:ffff:FfFf::AbCd"}
 	spaces = []string{" ", "  ", "\t", " \t ", "\n", "\r\n", "\v", "\f", "\u00a0", "\u0085", "\u1680", "\u2000", "\u2003", "\u200a", "\u2028", "\u2029", "\u202f", "\u205f", "\u3000", "\u200b", "\u180e", "\u2007 \u00a0", "\xc2", "\xe2\x80", "\x85", "\xa0"}
 )
@@ -687,6 +710,9 @@ func (g *gen) item(fwd bool) string {
 			"ext=abc", "a=b", "x-id=\"q;r\"", "Host=h", "BY=_gw", "PROTO=HTTP", "", " ", "for", "=", "=1.1.1.1", "forx=1.1.1.1", "fo=2.2.2.2", "xfor=3.3.3.3", "by=" + g.atom()})
 	}
 	forSection := func(v string) string {
+		if r.Pct(6) { // degenerate values: lone quote / bracket, nothing at all
+			return forKey() + "=" + hx.Pick(r, []string{"\"", "\"\"", "\"\"\"", " \" ", "[", "]", "[]", "\"[\"", "\"]\"", "\"[]\"", "", " ", "%", ":", "\"%\"", "\"\t\""})
+		}
 		switch p := r.Intn(100); {
 		case p < 88:
 			return forKey() + "=" + quote(v)
@@ -780,6 +806,12 @@ func (g *gen) request() reqDesc {
 		}
 		rq.single = append(rq.single, s)
 	}
+	if r.Pct(12) { // blank instance(s) of the single-IP header, last or in the middle
+		rq.single = append(rq.single, "")
+		if r.Pct(30) {
+			rq.single = append(rq.single, hx.Pick(r, []string{"", " ", g.atom()}))
+		}
+	}
 	switch p := r.Intn(100); {
 	case p < 60:
 		a := g.baseAddr()
@@ -808,7 +840,8 @@ func (g *gen) opts() []optFlag {
 }
 
 var rangeArgs = []string{"10.0.0.0/8", "192.168.0.0/16", "172.16.0.0/12", "127.0.0.1", "8.8.8.0/24", "1.1.1.1", "203.0.114.0/23", "100.64.0.0/10", "0.0.0.0/0", "128.0.0.0/1",
-	"::1", "fc00::/7", "fe80::/10", "2001:db8::/32", "2606:4700::/32", "::/0", "2000::/3", "::ffff:10.0.0.0/104", "::ffff:8.8.8.8", "192.0.2.77/24", "2001:db8:1:2:3:4:5:6/64", "255.255.255.255/32", "9.9.9.9/31"}
+	"::1", "fc00::/7", "fe80::/10", "2001:db8::/32", "2606:4700::/32", "::/0", "2000::/3", "::ffff:10.0.0.0/104", "::ffff:8.8.8.8", "192.0.2.77/24", "2001:db8:1:2:3:4:5:6/64", "255.255.255.255/32", "9.9.9.9/31",
+	"!10.0.0.7/8", "!192.168.1.77/16", "!172.20.3.4/12", "!127.0.0.1/8", "!8.8.8.8/24", "!fe80::1234/10", "!2001:db8::5/32", "!fc00::abcd/7", "!::ffff:10.1.2.3/104"}
 
 func (g *gen) resolver(depth int) *rdesc {
 	r := g.rnd
@@ -1087,6 +1120,14 @@ func main() {
 		{reqDesc{xff: []string{"192.18.0.1, 1.1.1.1"}}, &rdesc{kind: "leftmost", n: 2}},
 		{reqDesc{fwd: []string{"For=\"[2001:db8:cafe::17%zone]:4711\"", "for=192.0.2.60;proto=http; by=203.0.113.43"}}, &rdesc{kind: "count", fwd: true, n: 2}},
 		{reqDesc{xff: []string{"4.4.4.4, 10.0.0.1"}, single: []string{"3.3.3.3", "5.5.5.5"}, remote: "192.0.2.1:8080"}, &rdesc{kind: "chain", subs: []*rdesc{{kind: "single"}, {kind: "remote"}}}},
+		// degenerate entries: lone quote / bracket as for-value, blank last instance of the single-IP header,
+		// a trusted range whose IP keeps host bits
+		{reqDesc{fwd: []string{"for=9.9.9.9, for=\""}}, &rdesc{kind: "count", fwd: true, n: 1}},
+		{reqDesc{fwd: []string{"for=\", for=9.9.9.9"}}, &rdesc{kind: "leftmost", fwd: true, n: 3}},
+		{reqDesc{fwd: []string{"for=9.9.9.9, for=["}}, &rdesc{kind: "rnp", fwd: true}},
+		{reqDesc{single: []string{"6.6.6.6", ""}}, &rdesc{kind: "single"}},
+		{reqDesc{single: []string{"6.6.6.6", "", ""}}, &rdesc{kind: "single"}},
+		{reqDesc{xff: []string{"6.6.6.6, 9.9.9.9, 10.0.0.3"}}, &rdesc{kind: "range", rangeOK: true, ranges: []string{"!10.0.0.7/8"}}},
 		// boundary parameters (all of uint) and zero-value structs
 		{reqDesc{xff: []string{"10.0.0.1, 8.8.8.8"}}, &rdesc{kind: "leftmost", n: math.MaxUint}},
 		{reqDesc{xff: []string{"10.0.0.1, 8.8.8.8"}}, &rdesc{kind: "leftmost", n: 1 << 63}},
